@@ -8,6 +8,9 @@ CONSTANTS
   NOffer = 2
   NTake = 1
   Kinds = {"poll", "ttake"}
+  WithWaiters = FALSE
+  OneShot = FALSE
+  LoaderFreeOnly = FALSE
   WithClose = FALSE
   GuardedClose = TRUE
 VIEW View
